@@ -181,6 +181,23 @@ def src(s):
     return hx(s.encode()) + "=" + (c or "x")
 
 
+def up_sans(up):
+    """the upstream SAN list of a case: explicit `sans`, plus — for big ("cruise-liner") certificates — `many` = [n, where, name]: n generated
+    host names with the requested name placed early / late / absent"""
+    sans = list(up.get("sans", []))
+    if up.get("many"):
+        n, where, name = up["many"]
+        gen = [["dns", "h%d.many.example" % i] for i in range(n)]
+        try:
+            ipaddress.ip_address(name); ent = ["ip", name]
+        except ValueError:
+            ent = ["dns", name]
+        if where == "early" and n: gen[min(1, n - 1)] = ent
+        elif where == "late" and n: gen[n - 1] = ent
+        sans += gen
+    return sans
+
+
 def mint_upstream(up):
     subj = []
     if up.get("cn") is not None: subj.append(x509.NameAttribute(NameOID.COMMON_NAME, up["cn"], _validate=False))
@@ -189,7 +206,7 @@ def mint_upstream(up):
     name = x509.Name(subj)
     b = (x509.CertificateBuilder().subject_name(name).issuer_name(name).public_key(upkey().public_key()).serial_number(7)
          .not_valid_before(now - datetime.timedelta(days=1)).not_valid_after(now + datetime.timedelta(days=1)))
-    if up.get("sans"): b = b.add_extension(x509.SubjectAlternativeName([gname(s) for s in up["sans"]]), critical=False)
+    if up_sans(up): b = b.add_extension(x509.SubjectAlternativeName([gname(s) for s in up_sans(up)]), critical=False)
     if up.get("crl"):
         b = b.add_extension(x509.CRLDistributionPoints([x509.DistributionPoint([x509.UniformResourceIdentifier(u)], None, None, None) for u in up["crl"]]), critical=False)
     return b.sign(upkey(), hashes.SHA256())
@@ -279,7 +296,7 @@ class Check(PropertyCheck):
             "address x server address x upstream certificate shapes (CN/SAN/O/CRLDP incl. non-hostname CNs, empty and non-DNS SANs) x CA configuration "
             "(own CA, custom SKI, no SKI, intermediate+root, two more own CAs with the SAME subject DN); histories: one TlsConfig whose confdir is switched between CAs of equal DN, "
             "each leaf verified against the CA current at issue; then random combinations. distinct = distinct case; non-trivial = a certificate was produced.")
-    budget = {"quick": 1200, "thorough": 12000}
+    budget = {"quick": 1500, "thorough": 12000}
     time_budget = {"quick": 35, "thorough": 500}
     fingerprints = ["mitmproxy.addons.tlsconfig:TlsConfig.get_cert", "mitmproxy.addons.tlsconfig:_ip_or_dns_name",
                     "mitmproxy.certs:dummy_cert", "mitmproxy.certs:CertStore.get_cert"]
@@ -336,6 +353,17 @@ class Check(PropertyCheck):
         yield case("default", "example.com", "127.0.0.1", "10.0.0.1", UPS[1], opt=False)
         # the requested identity is an IP (SNI literal, or no SNI -> local address) that the upstream certificate spells as dNSName:
         # the leaf must still carry it as iPAddress, or a strict verifier rejects it for that address
+        # big upstream certificates: 0/1/99/100/101/150/300 SANs, the requested name early / late / absent in that list, long CNs, SNI and
+        # no-SNI (local address) identities — the leaf must name what the client asked for however long the upstream list is
+        for n in (0, 1, 99, 100, 101, 150, 300):
+            for where in ("early", "late", "absent"):
+                for sni, local, name in (("req.many.example", "127.0.0.1", "req.many.example"), (None, "127.0.0.1", "127.0.0.1"), ("2001:db8::1", "127.0.0.1", "2001:db8::1"),
+                                         ("other.example", "::1", "req.many.example")):
+                    for cn in (None, "h0.many.example", "x" * 64):
+                        if n in (1, 150) and cn: continue
+                        up = {"many": [n, where, name]}
+                        if cn: up["cn"] = cn
+                        yield case("default", sni, local, "10.0.0.1" if n % 2 else None, up)
         # histories over CAs with the SAME subject DN (every default mitmproxy CA is CN=mitmproxy,O=mitmproxy) within one process
         for a in SAME_DN:
             for b_ in SAME_DN:
@@ -358,6 +386,11 @@ class Check(PropertyCheck):
                 yield {"hist": [[rng.pick(SAME_DN) if rng.chance(0.8) else rng.pick(CAS), rng.pick(["example.com", "192.0.2.1", None, "www.example.com"])]
                                 for _ in range(rng.randint(2, 5))],
                        "local": rng.pick(LOCALS), "addr": rng.pick(ADDRS[:5]), "up": rng.pick(UPS) if rng.chance(0.4) else None, "upstream_opt": True}
+                continue
+            if rng.chance(0.05):
+                nm = rng.pick(["req.many.example", "127.0.0.1", "2001:db8::1"])
+                yield case("default", nm if rng.chance(0.7) else None, rng.pick(LOCALS), rng.pick(ADDRS[:4]),
+                           {"many": [rng.pick([0, 1, 2, 98, 99, 100, 101, 102, 200, 300]), rng.pick(["early", "late", "absent"]), nm], "cn": rng.pick(["c.example", "y" * 64])})
                 continue
             yield case(rng.pick(CAS) if rng.chance(0.3) else "default", rng.pick(SNIS), rng.pick(LOCALS), rng.pick(ADDRS),
                        rng.pick(UPS) if rng.chance(0.7) else None, opt=rng.chance(0.9))
@@ -486,7 +519,7 @@ class Check(PropertyCheck):
             if up.get("cn"):
                 c = classify(up["cn"])
                 if c: out.append(c)
-            out += [token(gname(s)) for s in up.get("sans", [])]
+            out += [token(gname(s)) for s in up_sans(up)]
         r = classify(case["sni"] or case["local"])
         if r: out.append(r)
         if case["addr"] is not None:
@@ -607,7 +640,7 @@ class Check(PropertyCheck):
             upf = "none"
         else:
             cn = "n" if up.get("cn") is None else src(up["cn"])
-            sans = ",".join(token(gname(s)) for s in up.get("sans", [])) or "nil"
+            sans = ",".join(token(gname(s)) for s in up_sans(up)) or "nil"
             org = "n" if up.get("org") is None else hx(up["org"].encode())
             tctx, tas = env()
             crl = expected_crl(up, tas[case["ca"]][0].crl_path())
